@@ -194,12 +194,12 @@ pub const CPU_LIMIT_US: u64 = 10_000_000;
 
 /// allocation caps for an input of n bytes: one request, and live bytes of the thread
 pub fn caps(n: usize) -> (usize, usize) {
-    let budget = (64usize << 20) + n.saturating_mul(64 << 10);
+    let budget = (16usize << 20) + n.saturating_mul(64 << 10);
     (budget.min(alloc::REFUSE_ABOVE), budget.min(4 << 30))
 }
 pub fn caps_text(n: usize) -> String {
     let (a, b) = caps(n);
-    format!("64 MiB + 64 KiB per input byte = {} MiB, for one request ({} MiB) and for the live total", b >> 20, a >> 20)
+    format!("16 MiB + 64 KiB per input byte = {} MiB, for one request ({} MiB) and for the live total", b >> 20, a >> 20)
 }
 
 /// `automerge::change_graph::ChangeGraphCols::load` -> keep the path, drop generic arguments and hashes
